@@ -352,3 +352,26 @@ Qed.
 
 Theorem spec_leaf_count_correct n : 0 <= n < 2 ^ 64 -> spec_leaf_count_of_forest n = n.
 Proof. intros. unfold spec_leaf_count_of_forest, forest. apply forest_from_leaf_count. rewrite tleafs_64. lia. Qed.
+
+(* ================================================================== right lineage length of a leaf *)
+(* i ends in exactly t ones:  i mod 2^(t+1) = 2^t - 1 *)
+Lemma right_lineage_length_from_leaf_index_char (t : nat) i : (t <= 63)%nat -> 0 <= i < 2 ^ 64 - 1 ->
+  i mod 2 ^ (Z.of_nat t + 1) = 2 ^ Z.of_nat t - 1 ->
+  right_lineage_length_from_leaf_index_ok i = true /\ right_lineage_length_from_leaf_index i = Z.of_nat t.
+Proof.
+  intros Ht Hi Em.
+  pose proof (pow2_pos (Z.of_nat t) ltac:(lia)) as Hp.
+  pose proof (pow2_pos (Z.of_nat t + 1) ltac:(lia)) as Hp1.
+  assert (Ei : i = (i / 2 ^ (Z.of_nat t + 1)) * 2 ^ (Z.of_nat t + 1) + 2 ^ Z.of_nat t - 1).
+  { pose proof (Z.div_mod i (2 ^ (Z.of_nat t + 1)) ltac:(lia)). lia. }
+  assert (Hc : 0 <= i / 2 ^ (Z.of_nat t + 1)) by (apply Z.div_pos; lia).
+  pose proof (land_succ_not 64 t _ i ltac:(lia) Hc Ei ltac:(change (2 ^ Z.of_nat 64) with (2 ^ 64); lia)) as L.
+  change (2 ^ Z.of_nat 64) with (2 ^ 64) in L.
+  unfold right_lineage_length_from_leaf_index_ok, right_lineage_length_from_leaf_index. cbv zeta.
+  rewrite wadd64_small by lia. unfold wnot. rewrite L.
+  unfold leading_zeros, bitlen. destruct (Z.eqb_spec (2 ^ Z.of_nat t) 0); [lia|].
+  rewrite Z.log2_pow2 by lia.
+  assert (E1 : wsub 32 64 (64 - (Z.of_nat t + 1)) = Z.of_nat t + 1) by (rewrite wsub32_small by (pow_lits; lia); lia).
+  rewrite E1. rewrite wsub32_small by (pow_lits; lia).
+  unfold add_ok, sub_ok. pow_lits. split; [lia|lia].
+Qed.
